@@ -747,3 +747,164 @@ theorem tblOptimize_keeps (t : Tbl) (h : Inv t) (x y v : Nat) (row : List Nat)
     exact ⟨_, rfl, forceWidth_keeps _ d x v hv hne⟩
 
 end Odf.Transform
+
+/-! ### `optimize_width` is idempotent (on the run-length state itself) -/
+namespace Odf.Transform
+open Odf.Rle Odf.Table Odf.Grid
+
+theorem getLast?_concat' {α} (l : List α) (a : α) : (l ++ [a]).getLast? = some a := by simp
+
+theorem dropLast_concat' {α} (l : List α) (a : α) : (l ++ [a]).dropLast = l := by simp
+
+/-- the forced row has the same minimized width, the same cell payloads in the same order, and forcing it again changes nothing -/
+theorem forceWidth_facts (w : Nat) (d : RowD) (hp : Pos d) (hw : minimizedWidth d ≤ w) :
+    minimizedWidth (forceWidth w d) = minimizedWidth d ∧
+    (forceWidth w d).map (·.1) = d.map (·.1) ∧
+    forceWidth w (forceWidth w d) = forceWidth w d := by
+  unfold forceWidth
+  cases hl : d.getLast? with
+  | none => simp [hl]
+  | some p =>
+    obtain ⟨c, n⟩ := p
+    simp only
+    have hne : d ≠ [] := by intro hc; subst hc; simp at hl
+    have hd : d = d.dropLast ++ [(c, n)] := by
+      have := List.dropLast_concat_getLast hne
+      rw [List.getLast?_eq_some_getLast hne] at hl
+      simp only [Option.some.injEq] at hl
+      rw [hl] at this
+      exact this.symm
+    have ht := total_dropLast_getLast d c n hl
+    by_cases hcond : empOf true c = true ∧ n ≥ 2 ∧ total d > w
+    · rw [if_pos hcond]
+      obtain ⟨he, hn2, hgt⟩ := hcond
+      have hmw : minimizedWidth d = total d - n + 1 := by
+        unfold minimizedWidth; rw [hl]; simp only; rw [if_pos he]
+      rw [hmw] at hw
+      refine ⟨?_, ?_, ?_⟩
+      · unfold minimizedWidth
+        rw [getLast?_concat', hl]
+        simp only
+        rw [if_pos he, if_pos he, total_append]
+        simp only [total_cons, total_nil]
+        omega
+      · conv => rhs; rw [hd]
+        simp
+      · rw [getLast?_concat']
+        simp only
+        have : ¬ (empOf true c = true ∧ n - (total d - w) ≥ 2 ∧ total (d.dropLast ++ [(c, n - (total d - w))]) > w) := by
+          rintro ⟨_, _, h3⟩
+          rw [total_append] at h3
+          simp only [total_cons, total_nil] at h3
+          omega
+        rw [if_neg this]
+    · rw [if_neg hcond]
+      refine ⟨rfl, rfl, ?_⟩
+      rw [hl]
+      simp only
+      rw [if_neg hcond]
+
+theorem all_of_map_fst (P : Nat → Bool) (a b : RowD) (h : a.map (·.1) = b.map (·.1)) :
+    a.all (fun c => P c.1) = b.all (fun c => P c.1) := by
+  have ha : a.all (fun c => P c.1) = (a.map (·.1)).all P := by rw [List.all_map]; rfl
+  have hb : b.all (fun c => P c.1) = (b.map (·.1)).all P := by rw [List.all_map]; rfl
+  rw [ha, hb, h]
+
+theorem trimRowsOpt_idem (rows : Runs RowD) : trimRowsOpt (trimRowsOpt rows) = trimRowsOpt rows := by
+  unfold trimRowsOpt
+  simp only
+  generalize hk : rstripList (fun (r : RowD × Nat) => r.1.all (fun c => empOf false c.1)) rows = kept
+  cases hd : rows.drop kept.length with
+  | nil =>
+    simp only
+    rw [hk, hd]
+  | cons p rest =>
+    obtain ⟨d, n⟩ := p
+    simp only
+    -- d is one of the stripped (empty) rows
+    obtain ⟨suf, e, hs⟩ := rstripList_split (fun (r : RowD × Nat) => r.1.all (fun c => empOf false c.1)) rows
+    rw [hk] at e
+    have hsuf : suf = (d, n) :: rest := by
+      have := congrArg (List.drop kept.length) e
+      rw [drop_len_append] at this
+      rw [← this]; exact hd
+    have hdemp : d.all (fun c => empOf false c.1) = true := hs (d, n) (by rw [hsuf]; simp)
+    have hlast : ∀ a, kept.getLast? = some a → (fun (r : RowD × Nat) => r.1.all (fun c => empOf false c.1)) a = false := by
+      intro a ha
+      exact rstripList_last _ rows a (by rw [hk]; exact ha)
+    have h1 : rstripList (fun (r : RowD × Nat) => r.1.all (fun c => empOf false c.1)) (kept ++ [(d, 1)]) = kept := by
+      rw [rstripList_append_all _ kept [(d, 1)] (by intro a ha; simp only [List.mem_singleton] at ha; subst ha; exact hdemp)]
+      exact rstripList_of_last _ kept hlast
+    rw [h1, drop_len_append]
+
+end Odf.Transform
+
+namespace Odf.Transform
+open Odf.Rle Odf.Table Odf.Grid
+
+/-- trimming the trailing empty rows commutes with a map that keeps, row by row, the emptiness and the repeat count -/
+theorem trimRowsOpt_map (l : Runs RowD) (f : RowD → RowD)
+    (hP : ∀ r ∈ l, (f r.1).all (fun c => empOf false c.1) = r.1.all (fun c => empOf false c.1)) :
+    trimRowsOpt (l.map (fun r => (f r.1, r.2))) = (trimRowsOpt l).map (fun r => (f r.1, r.2)) := by
+  unfold trimRowsOpt
+  simp only
+  have hk : rstripList (fun (r : RowD × Nat) => r.1.all (fun c => empOf false c.1)) (l.map (fun r => (f r.1, r.2))) =
+      (rstripList (fun (r : RowD × Nat) => r.1.all (fun c => empOf false c.1)) l).map (fun r => (f r.1, r.2)) := by
+    rw [rstripList_map]
+    congr 1
+    exact rstripList_congr _ _ l (fun r hr => hP r hr)
+  rw [hk]
+  generalize rstripList (fun (r : RowD × Nat) => r.1.all (fun c => empOf false c.1)) l = kept
+  rw [List.length_map, ← List.map_drop]
+  cases hd : l.drop kept.length with
+  | nil => simp
+  | cons p rest =>
+    obtain ⟨d, n⟩ := p
+    simp
+
+theorem tblOptimize_idem (t : Tbl) (h : Inv t) : tblOptimize (tblOptimize t) = tblOptimize t := by
+  have hposR : Pos t.rows.runs := h.rows.2
+  generalize hr1 : trimRowsOpt t.rows.runs = rows1
+  have hcell1 : ∀ q ∈ rows1, Pos q.1 := by
+    intro q hq
+    obtain ⟨n, hn⟩ := trimRowsOpt_cells t.rows.runs q (by rw [hr1]; exact hq)
+    exact h.cells (q.1, n) hn
+  generalize hwd : (rows1.map (fun r => minimizedWidth r.1)).foldl max 0 = w
+  have hwge : ∀ q ∈ rows1, minimizedWidth q.1 ≤ w := by
+    intro q hq
+    rw [← hwd]
+    exact foldl_max_pos (rows1.map (fun r => minimizedWidth r.1)) (minimizedWidth q.1) (List.mem_map.mpr ⟨q, hq, rfl⟩) 0
+  have hfacts : ∀ q ∈ rows1, _ := fun q hq => forceWidth_facts w q.1 (hcell1 q hq) (hwge q hq)
+  -- the first pass, named
+  have e1 : tblOptimize t = { cols := fresh (if total t.cols.runs > w then trimCols t.cols.runs (total t.cols.runs - w) else t.cols.runs),
+                              rows := fresh (rows1.map (fun r => (forceWidth w r.1, r.2))) } := by
+    unfold tblOptimize
+    simp only [hr1, hwd]
+  rw [e1]
+  -- the rows of the second pass
+  have hA : trimRowsOpt (rows1.map (fun r => (forceWidth w r.1, r.2))) = rows1.map (fun r => (forceWidth w r.1, r.2)) := by
+    rw [trimRowsOpt_map rows1 (forceWidth w) (fun r hr => all_of_map_fst _ _ _ (hfacts r hr).2.1)]
+    rw [← hr1, trimRowsOpt_idem]
+  have hB : ((rows1.map (fun r => (forceWidth w r.1, r.2))).map (fun r => minimizedWidth r.1)).foldl max 0 = w := by
+    rw [List.map_map]
+    have hm : rows1.map ((fun (r : RowD × Nat) => minimizedWidth r.1) ∘ (fun r => (forceWidth w r.1, r.2))) = rows1.map (fun r => minimizedWidth r.1) := by
+      apply List.map_congr_left
+      intro r hr
+      exact (hfacts r hr).1
+    rw [hm, hwd]
+  have hC : (rows1.map (fun r => (forceWidth w r.1, r.2))).map (fun r => (forceWidth w r.1, r.2)) = rows1.map (fun r => (forceWidth w r.1, r.2)) := by
+    rw [List.map_map]
+    apply List.map_congr_left
+    intro r hr
+    simp only [Function.comp]
+    rw [(hfacts r hr).2.2]
+  have hD : ¬ total (if total t.cols.runs > w then trimCols t.cols.runs (total t.cols.runs - w) else t.cols.runs) > w := by
+    split
+    · rename_i hgt
+      rw [total_trimCols _ _ (by omega)]
+      omega
+    · omega
+  unfold tblOptimize
+  simp only [fresh, hA, hB, hC, if_neg hD]
+
+end Odf.Transform
